@@ -18,6 +18,7 @@ const (
 )
 
 func c05(c *Ctx) {
+	c05updateIsRemoveThenAdd(c)
 	c.R.Rule("FRESH(clone): ReservationInfo.Clone gives the clone its own AssignedPods map on every path, also for a reservation with no assigned pod yet")
 	freshCloneField(c, c.Fn(fwextPkg, "ReservationInfo", "Clone"), "AssignedPods", "a pod added on either side appears on the other without its allocation, so allocated no longer equals the sum of the assigned pods and the real add is skipped as a repeat")
 	r := c.R
